@@ -113,6 +113,7 @@ func (hs *heightSub) WaitOrCheck(ctx context.Context, height uint64, check func(
 	}
 	sac.count++
 	hs.heightSubsLk.Unlock()
+	verifhook.Yield(ctx, "reader.registered")
 
 	if check != nil && check() {
 		select {
@@ -125,6 +126,7 @@ func (hs *heightSub) WaitOrCheck(ctx context.Context, height uint64, check func(
 		}
 		return nil
 	}
+	verifhook.Yield(ctx, "reader.parking")
 
 	select {
 	case <-sac.signal:
